@@ -153,6 +153,11 @@ def _four_cols(_):
     st = Stats()
     cols = ['a', 'b', 'c', 'd', 'label']
     f1 = [['0', '0', '0', '0', '0'], ['0', '1', '0', '1', '1'], ['1', '0', '2', '1', '0'], ['1', '1', '2', '0', '1'], ['2', '0', '0', '2', '0'], ['2', '1', '1', '0', '1']]
+    # for every feature column two rows that agree on all other features and differ only there (so that leaving a constituent out, or swapping one, changes the partition)
+    for j in range(4):
+        r = list(f1[1])
+        r[j] = '9'
+        f1.append(r)
     f2 = [[r[2], r[0], r[3], r[1], r[4]] for r in reversed(f1)]
     for order in (2, 3, 4):
         for cap in (1, 2, 3, 2 ** 15):
